@@ -424,7 +424,10 @@ class SweepArm(Arm):
                    "min_edges": 3, "expr_depth": 2, "depths": [0], "collision": False, "max_alg": 1, "overrides": False,
                    "funcs": ["tanh", "sigmoid", "exp"], "pow": False}
             a = draw(gen.model_spec(cfg))
-            mode = draw(st.sampled_from(["weights", "weights", "defaults", "equation"]))
+            be = draw(st.sampled_from(["jax", "jax", "torch", "default", "fortran", "fortran"]))
+            # (values reach a compiled Fortran routine as arguments; what a stale routine gets wrong are the equations)
+            mode = draw(st.sampled_from(["weights", "weights", "defaults", "equation"] if be != "fortran" else
+                                        ["equation", "equation", "defaults"]))
             if draw(st.booleans()):
                 # dense coupling of one variable pair over all nodes (a weight matrix in the vectorized network)
                 rm = RefModel(a)
@@ -449,7 +452,6 @@ class SweepArm(Arm):
             else:
                 o = sorted(b["ops"])[0]
                 b["ops"][o]["eqs"][0][2] = ["bin", "*", ["num", 0.5], b["ops"][o]["eqs"][0][2]]
-            be = draw(st.sampled_from(["jax", "jax", "torch", "default", "fortran"]))
             vec = draw(st.sampled_from([True, True, False]))
             kind = draw(st.sampled_from(["get_run_func", "get_run_func", "run"])) if be != "fortran" else "get_run_func"
             base = {"op": kind, "vectorize": vec, "in_place": draw(st.booleans()), "clear": draw(st.booleans()),
